@@ -201,8 +201,8 @@ def main():
                        "sopht/numeric/eulerian_grid_ops/stencil_ops_2d/update_vorticity_from_velocity_forcing_2d.py", "sopht/simulator/flow/navier_stokes_flow_simulators.py"])
     chk.maybe_replay()
     sopht_modules()
-    s3 = [(5, 5, 5), (5, 6, 7)] if chk.quick else [(5, 5, 5), (5, 6, 7), (7, 5, 6), (6, 6, 6)]
-    s2 = [(5, 6)] if chk.quick else [(5, 6), (7, 5), (6, 6)]
+    s3 = [(5, 5, 5), (5, 6, 7), (7, 5, 6), (6, 6, 6)] if chk.quick else [(5, 5, 5), (5, 6, 7), (7, 5, 6), (6, 6, 6), (6, 7, 5), (8, 5, 5), (5, 5, 8)]
+    s2 = [(5, 6), (7, 5), (6, 6)] if chk.quick else [(5, 6), (7, 5), (6, 6), (5, 5), (9, 5), (5, 9)]
     precisions = ["float64", "float32"]
     for rt in precisions:
         for sh in s3:
